@@ -72,7 +72,51 @@ macro_rules! c06_dup {
     }};
 }
 
+/// Large histograms: the edges are concrete (j - 3 for j = 0..=LEN, optionally -inf / +inf at the ends and one repeated edge at a
+/// symbolic position), the sample is any double. A bin search whose behaviour depends on the SIZE of the histogram (block
+/// skipping, narrow index types, bounded step counts) shows here; with symbolic edges LEN 10 is the practical limit.
+macro_rules! c06_fixed {
+    ($i:ident, $H:ty, $LEN:expr) => {{
+        const LEN: usize = $LEN;
+        let mut e = [0.0f64; LEN + 1];
+        for j in 0..=LEN { e[j] = (j as f64) - 3.0; }
+        if $i.bool() { e[0] = f64::NEG_INFINITY; }
+        if $i.bool() { e[LEN] = f64::INFINITY; }
+        let d = $i.usize();
+        vassume!($i, d < LEN);
+        let dup = $i.bool();
+        if dup && d >= 1 && d + 1 < LEN { e[d + 1] = e[d]; }
+        let mut h = <$H>::from_ranges(e.iter().copied()).unwrap();
+        let x = $i.f64();
+        let inside = e[0] <= x && x < e[LEN];
+        let f = h.find(x);
+        vassert!($i, f.is_ok() == inside, "C06:find-ok-iff-in-range");
+        if let Ok(k) = f {
+            vassert!($i, k < LEN, "C06:bin-index-in-bounds");
+            if k < LEN {
+                vassert!($i, e[k] <= x && x < e[k + 1], "C06:selected-bin-contains-sample");
+            }
+        }
+        let a = h.add(x);
+        vassert!($i, a.is_ok() == f.is_ok(), "C06:add-agrees-with-find");
+        let (_, after) = h.__verif_parts();
+        let mut total: u64 = 0;
+        for j in 0..LEN {
+            total += after[j];
+            let expect = match f { Ok(k) if k == j => 1, _ => 0 };
+            vassert!($i, after[j] == expect, "C06:only-selected-bin-incremented");
+        }
+        vassert!($i, total == (if a.is_ok() { 1 } else { 0 }), "C06:total-counts-successful-adds");
+        vcover!($i, f.is_ok() && x == 13.0, "sample-on-edge-16");
+        vcover!($i, f.is_ok() && dup && x == e[d], "sample-on-repeated-edge");
+        vcover!($i, x.is_nan(), "nan-sample");
+    }};
+}
+
 harnesses! {
+    fn fixed20 [23] (i) { c06_fixed!(i, H20, 20) }
+    fn fixed33 [36] (i) { c06_fixed!(i, H33, 33) }
+    fn fixed100 [103] (i) { c06_fixed!(i, H100, 100) }
     /// samples range over all doubles incl. NaN (rejected with SampleOutOfRangeError, never a panic)
     fn len1 [5] (i) { c06_body!(i, H1, 1, true) }
     fn len2 [6] (i) { c06_body!(i, H2, 2, true) }
